@@ -1,4 +1,4 @@
-CONSTANT MaxDev = 2
+CONSTANTS MaxDev = 2 Objects = {"r1", "r2", "c1"}
 SPECIFICATION Spec
 VIEW view
 INVARIANTS Exact Safe AllOrNothing Conforming Emit
